@@ -34,13 +34,13 @@ use virtio_drivers::{BufferDirection, Hal, PhysAddr};
 // ------------------------------------------------------------------------------------------------
 // allocator interposition: a heap free that overlaps memory currently shared with the device
 pub struct HookAlloc;
-static WATCH_ON: AtomicBool = AtomicBool::new(false);
+pub static WATCH_ON: AtomicBool = AtomicBool::new(false);
 const NW: usize = 1024;
 static W_START: [AtomicUsize; NW] = [const { AtomicUsize::new(0) }; NW];
 static W_LEN: [AtomicUsize; NW] = [const { AtomicUsize::new(0) }; NW];
 static W_HI: AtomicUsize = AtomicUsize::new(0);
 const NH: usize = 16384;
-static H_N: AtomicUsize = AtomicUsize::new(0);
+pub static H_N: AtomicUsize = AtomicUsize::new(0);
 static H_VADDR: [AtomicUsize; NH] = [const { AtomicUsize::new(0) }; NH];
 static H_POS: [AtomicUsize; NH] = [const { AtomicUsize::new(0) }; NH];
 static H_SEQ: [AtomicUsize; NH] = [const { AtomicUsize::new(0) }; NH];
@@ -94,7 +94,7 @@ fn watch_add(vaddr: usize, len: usize) {
 fn watch_del(vaddr: usize) {
     for i in 0..W_HI.load(Relaxed) { if W_LEN[i].load(Relaxed) != 0 && W_START[i].load(Relaxed) == vaddr { W_LEN[i].store(0, Relaxed); return; } }
 }
-fn watch_reset() {
+pub fn watch_reset() {
     WATCH_ON.store(false, Relaxed);
     for i in 0..NW { W_LEN[i].store(0, Relaxed); }
     W_HI.store(0, Relaxed); H_N.store(0, Relaxed); FREE_ID.store(0, Relaxed); SEQ.store(0, Relaxed);
